@@ -16,7 +16,7 @@ A function the translator could not read is `…_available = false` and its theo
 correspondence runs only); a function it read whose control flow differs from the model's makes the theorem fail.
 -/
 import NdInterp.Gen.Control
-import NdInterp.Model.Linear
+import NdInterp.Model.Spline
 
 namespace NdInterp
 
@@ -409,6 +409,64 @@ theorem FT_ctl_bilinear (ext : Bool) (xs ys : List α) (zs : List (List V)) (x y
          cases lowerIndex ys y with
          | error e => rfl
          | ok yi => bil_reads)
+
+end
+
+section
+variable {α V : Type} [Cmp α] [Add α] [Sub α] [Mul α] [Div α] [Neg α] [NatCast α] [ToUsize α] [RemEuclid α] [Lanes α V]
+
+set_option hygiene false in
+/-- the reads of the evaluation at index `idx` (two `index_point` calls, the `a` and `b` rows) -/
+local macro "spl_reads" : tactic => `(tactic| (
+  dsimp only
+  cases xs[idx]? <;> cases ys[idx]? <;> cases xs[idx + 1]? <;> cases ys[idx + 1]? <;> cases s.a[idx]? <;> cases s.b[idx]? <;> rfl))
+
+/-- **`CubicSplineStrategy::interp_into`** as it is in the source now (the range test first, rejection only in mode `No`, the periodic
+    wrap only in mode `Periodic` outside the range, the lookup at the wrapped point, the two `index_point` reads, the `a` / `b` rows,
+    the local coordinate and the `Zip` with the Hermite form) is the model's `splineInterp` -/
+theorem FT_ctl_spline (s : SplineStrat V) (xs : List α) (ys : List V) (x : α) :
+    (spline_interp_into_available && acc1_is_in_range_available && acc1_get_index_left_of_available && acc1_index_point_available &&
+      get_lower_index_available && get_lower_index_loop1_available) = true →
+    spline_interp_into s xs ys x = splineInterp s xs ys x := by
+  intro h
+  first
+  | exact absurd h (by decide)
+  | (simp only [Bool.and_eq_true] at h
+     obtain ⟨⟨⟨⟨⟨_, hr⟩, hg⟩, hp⟩, hl1⟩, hl2⟩ := h
+     have hG : ∀ q, acc1_get_index_left_of xs q = lowerIndex xs q := fun q =>
+       FT_ctl_acc1_get_index_left_of xs q (by simp only [Bool.and_eq_true]; exact ⟨⟨hg, hl1⟩, hl2⟩)
+     unfold spline_interp_into splineInterp splineWrap splineEvalAt
+     simp only [FT_ctl_acc1_is_in_range _ _ hr, hG, FT_ctl_acc1_index_point _ _ _ hp, rd, bind, Except.bind, pure, Except.pure,
+       throw, throwThe, MonadExceptOf.throw]
+     cases isInRange xs x with
+     | error e => rfl
+     | ok b =>
+       dsimp only
+       cases hm : s.extrapolate <;> cases b <;>
+         simp only [show (Extrapolate.yes == Extrapolate.no) = false from rfl, show (Extrapolate.yes == Extrapolate.periodic) = false from rfl,
+           show (Extrapolate.no == Extrapolate.no) = true from rfl, show (Extrapolate.no == Extrapolate.periodic) = false from rfl,
+           show (Extrapolate.periodic == Extrapolate.no) = false from rfl, show (Extrapolate.periodic == Extrapolate.periodic) = true from rfl,
+           Bool.false_eq_true, ↓reduceIte, Bool.not_false, Bool.not_true, Bool.and_true, Bool.and_false, Bool.true_and, Bool.false_and]
+       all_goals first
+         | rfl
+         | (cases lowerIndex xs x with
+            | error e => rfl
+            | ok idx => spl_reads)
+         | (cases h0 : xs[0]? with
+            | none => rfl
+            | some x0 =>
+              have hlen : 1 ≤ xs.length := by
+                rcases xs with _ | ⟨_, _⟩
+                · simp at h0
+                · simp
+              simp only [hlen, ↓reduceIte]
+              cases xs[xs.length - 1]? with
+              | none => rfl
+              | some xn =>
+                dsimp only
+                cases lowerIndex xs (RemEuclid.remEuclid (x - x0) (xn - x0) + x0) with
+                | error e => rfl
+                | ok idx => spl_reads))
 
 end
 
